@@ -63,7 +63,7 @@ pub fn definitional_blocks(ctx: &mut Ctx, fam: Family, dir: Direction) {
     ctx.subject(&name);
     let w = ctx.cfg.par;
     let cb = ctx.cfg.bs; // cipher block size
-    let (iv, ivc) = wl::iv(&mut ctx.rng, d.iv_len);
+    let (iv, ivc) = mode_iv(ctx, d.iv_len);
     // CFB-8 processes one byte per mode block: lengths are in bytes there
     let (n, lc) = if fam == Family::Cfb8 {
         let (nb, c) = wl::nbytes(&mut ctx.rng, cb, w, ctx.tier);
@@ -71,7 +71,7 @@ pub fn definitional_blocks(ctx: &mut Ctx, fam: Family, dir: Direction) {
     } else {
         wl::nblocks(&mut ctx.rng, w, d.bs, ctx.tier)
     };
-    let (mut data, dc) = wl::data(&mut ctx.rng, n * d.bs);
+    let (mut data, dc) = mode_data(ctx, n * d.bs);
     if dir == Direction::Dec && n >= 1 && ctx.rng.chance(1, 5) && d.bs == cb {
         // the IV itself as first ciphertext block
         data[..cb].copy_from_slice(&iv[..cb]);
@@ -106,12 +106,16 @@ pub fn definitional_blocks(ctx: &mut Ctx, fam: Family, dir: Direction) {
         let det = diff_desc("output vs recurrence", &f.out, &want, d.bs);
         return ctx.violation(&format!("{}/output/{}", ctx.prop, name), det);
     }
-    // chaining value after every piece boundary
+    // chaining value after every piece boundary (the model is continued from its own chaining
+    // value, which is what "chaining value" means in the definition: linear cost)
     let mut off = 0;
+    let mut model_state = iv.clone();
     for (k, (pn, _)) in pieces.iter().enumerate() {
+        let start = off;
         off += pn * d.bs;
+        let (_, ws) = model_blk(ctx.rc.as_ref(), fam, dir, &model_state, &data[start..off]);
+        model_state = ws.clone();
         if let Some(st) = &f.states[k] {
-            let (_, ws) = model_blk(ctx.rc.as_ref(), fam, dir, &iv, &data[..off]);
             if st != &ws {
                 let det = format!("after piece {} ({} blocks fed): {}", k, off / d.bs, diff_desc("iv_state vs recurrence", st, &ws, d.bs));
                 return ctx.violation(&format!("{}/state/{}", ctx.prop, name), det);
